@@ -307,7 +307,7 @@ def obligations(tier):
         make_edge("C03.face_face.2f4.s33", 2, 4, 5, ["face_face"], sizes=[3, 3], tiers=T, cost=20),
         make_edge("C03.face_face.2f4.s34", 2, 4, 5, ["face_face"], sizes=[3, 4], tiers=T, cost=20),
         make_edge("C03.face_face.2f4.s43", 2, 4, 5, ["face_face"], sizes=[4, 3], tiers=T, cost=20),
-        make_edge("C03.face_face.2f4.s44", 2, 4, 5, ["face_face"], sizes=[4, 4], tiers=T, cost=30),
+        make_edge("C03.face_face.2f4.s44", 2, 4, 5, ["face_face"], sizes=[4, 4], tiers=(), cost=30),      # withdrawn: harness error after 67 paths / 2070 s in the thorough run (DESIGN section 8)
         make_edge("C03.face_face.3f3", 3, 3, 5, ["face_face"], tiers=T, cost=30),
         make_edge("C03.edge_face.3f3", 3, 3, 5, ["edge_face", "hole"], tiers=T, cost=20),
         make_node("C03.node_face.3f3.n4", 3, 3, 4, cost=8, tiers=T),
